@@ -18,7 +18,7 @@ impl<'d> Data<'d> {
             BigEndian::write_u16(&mut target[i * 2..], *w);
         }
         Ok(Data {
-            data: target,
+            data: &target[..words.len() * 2],
             quantity: words.len(),
         })
     }
